@@ -66,7 +66,8 @@ class PullP:
 
 def post_init(w):
     # reference model per side: is the aggregate (Outbound) paused?  which subchannels did the app pause?
-    w.model = {i: dict(paused=True, turns=[], app_paused=set(), tcycles=w.cfg.get("tcycles", 2), arms=w.cfg.get("arms", 1)) for i in (0, 1)}
+    w.model = {i: dict(paused=True, turns=[], app_paused=set(), tcycles=w.cfg.get("tcycles", 2), arms=w.cfg.get("arms", 1),
+                       arms_pr=w.cfg.get("arms_pr", 0)) for i in (0, 1)}
     w.prod = {0: {}, 1: {}}
 
 
@@ -92,6 +93,12 @@ def sync_model(w):
                 t.told_paused = False
 
                 def on_write(tr, data, i=i):
+                    if getattr(tr, "armed", False) == "pr" and tr.producer is not None and not tr.told_paused:
+                        # the buffer fills and drains within this very write: pause and resume both arrive inside the turn
+                        tr.armed = False
+                        tr.producer.pauseProducing()
+                        tr.producer.resumeProducing()
+                        return
                     if getattr(tr, "armed", False) and tr.producer is not None:
                         tr.armed = False
                         tr.told_paused = True
@@ -149,12 +156,14 @@ def extra_events(w):
                     evs.append(("arm", i))
             else:
                 evs.append(("tresume", i))
+            if m["arms_pr"] > 0 and not getattr(t, "armed", False):
+                evs.append(("armpr", i))
     return evs
 
 
 def extra_apply(w, ev):
     k = ev[0]
-    if k not in ("tpause", "tresume", "arm"):
+    if k not in ("tpause", "tresume", "arm", "armpr"):
         return False
     i = ev[1]
     t = conn_transport(w, i)
@@ -169,6 +178,9 @@ def extra_apply(w, ev):
         t.told_paused = False
         m["paused"] = False
         w._guard("transport.resume", t.producer.resumeProducing)
+    elif k == "armpr":
+        m["arms_pr"] -= 1
+        t.armed = "pr"
     else:
         m["arms"] -= 1
         t.armed = True
@@ -279,7 +291,7 @@ def fin(w):
 
 def mk(name, threads, **kw):
     scn_kw = {k: kw.pop(k) for k in ("max_depth", "max_states", "dev_bound") if k in kw}
-    cfg = dict(explored=("app", "tpause", "tresume", "arm", "lose"), chunking="whole", no_timer=True, threads=threads,
+    cfg = dict(explored=("app", "tpause", "tresume", "arm", "armpr", "lose"), chunking="whole", no_timer=True, threads=threads,
                monitors=[mon], final_monitors=[fin], post_init=post_init, extra_events=extra_events, extra_apply=extra_apply,
                app_hook=app_hook, op_guard=guard, extra_state=lambda w: (w.model, [(type(p).__name__, p.ci, p.calls, p.registered) for i in (0, 1) for p in w.prod[i].values()]))
     cfg.update(kw)
@@ -306,6 +318,12 @@ def scenarios(tier):
                 tcycles=2, arms=1, max_depth=60, max_states=600000))
     S.append(mk("push-reconnect", thr([opens[:2], [("reg_push", 0, True)], [("reg_push", 1, False)]]),
                 tcycles=1, arms=1, lose=1, dev_bound=3 if q else 4, max_depth=100))
+    # a transport whose buffer fills and drains within one write: pauseProducing and resumeProducing both arrive inside the turn of
+    # the producer that is writing (while Outbound.resumeProducing is handing out turns, or during a plain application write)
+    S.append(mk("push-pause-resume-inside-turn", thr([opens, [("reg_push", 0, True)], [("reg_push", 1, True)], [("reg_push", 2, False)]]),
+                tcycles=1, arms=0, arms_pr=2, max_depth=80, max_states=600000))
+    S.append(mk("push-pull-pause-resume-inside-turn", thr([opens[:2], [("reg_push", 0, True)], [("reg_pull", 1, 2)], [("write", 0, b"w")]]),
+                tcycles=1, arms=1, arms_pr=1, max_depth=80, max_states=600000))
     # inbound: application pause/resume/stop of subchannels, carried over to a replacement connection
     S.append(mk("inbound-pause-resume", thr([opens[:2], [("pause", 0), ("resume", 0)], [("pause", 1), ("stop", 1)]]),
                 tcycles=0, arms=0, max_depth=60, max_states=600000))
